@@ -36,13 +36,9 @@ func c04Val(r *rand.Rand) value.Primary {
 	case 4:
 		return value.NewTernary([]ternary.Value{ternary.TRUE, ternary.FALSE, ternary.UNKNOWN}[r.Intn(3)])
 	case 5:
-		// bucket keys and sort values of datetimes are their UnixNano, which is only defined for the years
-		// 1678..2261 (finding datetime-sort-beyond-int64-nanos): keys are drawn from that range
-		for {
-			if t := c06Times[r.Intn(len(c06Times))]; t.Year() > 1700 && t.Year() < 2250 {
-				return value.NewDatetime(t)
-			}
-		}
+		// also datetimes outside the years 1678..2262, where UnixNano is not defined (finding
+		// datetime-key-beyond-int64-nanos, fixed: the key holds the exact nanoseconds)
+		return value.NewDatetime(c06Times[r.Intn(len(c06Times))])
 	default:
 		return value.NewString(c04Texts[r.Intn(len(c04Texts))])
 	}
